@@ -165,9 +165,14 @@ class World(object):
         finally:
             shutil.rmtree(tmp, ignore_errors=True)
 
-    def render_population(self, rows, rnd, order='schema_first', nchunks=1, named=None):
-        sch = [s for _, s in _sql.schema_statements(self.schema, rnd)]
-        ins = [_sql.insert_statement(self.schema, r, rnd, named) for r in rows]
+    def render_population(self, rows, rnd, order='schema_first', nchunks=1, named=None, parts=None, modes=None):
+        sch = [s for _, s in _sql.schema_statements(self.schema, rnd, parts if parts is not None else ('table', 'rop', 'index'))]
+        if modes is not None:
+            # no (or not every) CREATE TABLE statement: values in the lexical form that fixes their type, one insert
+            # form per class
+            ins = [_sql.insert_statement(self.schema, r, rnd, bool(modes[r['c']]), True) for r in rows]
+        else:
+            ins = [_sql.insert_statement(self.schema, r, rnd, named) for r in rows]
         if order == 'schema_first':
             stmts = sch + ins
         elif order == 'schema_last':
@@ -212,6 +217,8 @@ class World(object):
                 xtuml.persist_instances(m, p, mode='a')
                 xtuml.persist_unique_identifiers(m, p, mode='a')
                 return [open(p, encoding='utf-8').read()]
+            if route == 'instances_only':
+                return [xtuml.serialize_instances(m)]
             if route == 'classes_assocs':
                 return [xtuml.serialize_classes(m) + xtuml.serialize_associations(m)
                         + ''.join(xtuml.serialize(x) for x in m.instances) + xtuml.serialize_unique_identifiers(m)]
@@ -301,9 +308,13 @@ class World(object):
                 decl = [a['n'] for a in self.schema['attrs'].get(mc.kind, [])]
                 if name in decl and decl.index(name) < len(names):
                     try:
-                        return encode(getattr(x, names[decl.index(name)]), ty)
+                        v = getattr(x, names[decl.index(name)])
                     except AttributeError:
                         return 'absent'
+                    actual = (mc.attribute_type(names[decl.index(name)]) or '').upper()
+                    if ty.upper() == 'BOOLEAN' and actual == 'INTEGER' and v in (0, 1):
+                        return 'b:%d' % v     # a boolean persisted without its schema comes back as the integer 0 / 1
+                    return encode(v, ty)
             return 'absent'
 
     # ---- observations (MetaObs.tla Eval) ----
@@ -471,7 +482,9 @@ class World(object):
             ev.update({'rows': rows, 'g': -1, 'how': how})
             rnd = random.Random(how.get('seed', k))
             chunks = self.render_population(rows, rnd, how.get('order', 'schema_first'), how.get('chunks', 1),
-                                            how.get('named'))
+                                            how.get('named'), how.get('parts'), how.get('modes'))
+            if how.get('infer'):
+                ev['infer'] = how['infer']
             m, _ = self.load_texts(chunks, how.get('route', 'input'), rnd)
             self.adopt(m)
             ev['schema'] = self.schema_projection()
@@ -486,6 +499,8 @@ class World(object):
             m, _ = self.load_texts(texts, how.get('route', 'input'), rnd)
             self.adopt(m)
             ev['schema'] = self.schema_projection()
+            if how.get('infer'):
+                ev['infer'] = how['infer']
             # the text is a fixed point after one round
             t1 = xtuml.serialize(self.m)
             l2 = xtuml.ModelLoader()
